@@ -379,7 +379,7 @@ func (c *Ctx) checkSignerSetBuilder(f *ssa.Function) {
 			return
 		}
 		self := false
-		for _, e := range ph.Edges {
+		for _, e := range flatPhi(ph) {
 			if e == ssa.Value(bo) {
 				self = true
 			}
@@ -399,8 +399,8 @@ func (c *Ctx) checkSignerSetBuilder(f *ssa.Function) {
 			return
 		}
 		okE := true
-		for _, e := range ph.Edges {
-			if e == ssa.Value(bo) || e == ssa.Value(ph) || isConstVal(e, "0") {
+		for _, e := range flatPhi(ph) {
+			if e == ssa.Value(bo) || isConstVal(e, "0") {
 				continue
 			}
 			okE = false
